@@ -6,7 +6,7 @@
 (* verdict of every event is total: a set of failing clause names (empty = *)
 (* accepted) printed as JSON {"V": id, "c": [clauses]}.                              *)
 (***************************************************************************)
-EXTENDS Json, IOUtils, TLC, JSearch, JArrays, JProcess, JRfa, JRfaRel, JMatch, JPipeline, JWeaver, JEnv
+EXTENDS Json, IOUtils, TLC, JSearch, JArrays, JProcess, JRfa, JRfaRel, JMatch, JPipeline, JWeaver, JEnv, JShape
 
 Trace == JsonDeserialize(IOEnv.TRACE_FILE)
 Chunk == atoi(IOEnv.TRACE_CHUNK)
@@ -51,6 +51,7 @@ Verdict(e) ==
       [] e.fn = "wrestore" -> V_wrestore(e)
       [] e.fn = "reject_misc" -> V_reject_misc(e)
       [] e.fn = "noise" -> V_noise(e)
+      [] e.fn = "wshape" -> V_wshape(e)
       [] e.fn = "smooth" -> V_smooth(e)
       [] OTHER -> {"machinery.unknown_fn"}
 
